@@ -317,6 +317,10 @@ func H_C16_repeat() {
 			b, _ = mm.XmlIndent("", " ")
 		case 2:
 			b, _ = mm.Json()
+		case 4:
+			b, _ = mm.JsonIndent("", " ")
+		case 5:
+			b, _ = mm.Json(true)
 		default:
 			w := &vWriter{}
 			_ = mm.XmlWriter(w)
@@ -324,7 +328,7 @@ func H_C16_repeat() {
 		}
 		return b
 	}
-	first, second := vChoose(4), vChoose(4)
+	first, second := vChoose(6), vChoose(6)
 	want1 := string(enc(fresh, first))
 	fresh2 := build(t, v)
 	want2 := string(enc(fresh2, second))
